@@ -6,6 +6,7 @@ script operations of the single-threaded harnesses (harness/c15/*.cpp): `handle_
 -/
 import TbbVerif.Core.Proto
 import TbbVerif.Model.C15
+import Driver.C15Batch
 
 open TbbVerif TbbVerif.C15
 
@@ -589,7 +590,9 @@ def drivers : List (String × Proto.Driver) := [
   ("c15jk",   { σ := JkD,   init := {}, step := driveJk }),
   ("c15jr",   { σ := JrD,   init := {}, step := driveJr }),
   ("c15ow",   { σ := OwD,   init := {}, step := driveOw }),
-  ("c15misc", { σ := MiscD, init := {}, step := driveMisc })
+  ("c15misc", { σ := MiscD, init := {}, step := driveMisc }),
+  ("c15bat",  { σ := C15BatDrv.BatD, init := {}, step := C15BatDrv.drive }),
+  ("c15jb",   { σ := C15JbDrv.JbD, init := {}, step := C15JbDrv.drive })
 ]
 
 def main (args : List String) : IO UInt32 := Proto.mainOf drivers args
